@@ -1,6 +1,7 @@
 package lib
 
 import (
+	"fmt"
 	"net"
 	"regexp"
 	"strconv"
@@ -51,14 +52,17 @@ type RegConfig struct {
 }
 
 // ParseBlocklists converts string arrays of blocklisted domains, addresses and
-// subnets and parses them into a usable format
-func (c *RegConfig) ParseBlocklists() {
+// subnets and parses them into a usable format. An entry that can not be parsed
+// is an error: dropping it would leave a filter that the operator configured
+// silently unenforced.
+func (c *RegConfig) ParseBlocklists() error {
 	c.covertBlocklistSubnets = []*net.IPNet{}
 	for _, subnet := range c.CovertBlocklistSubnets {
 		_, ipNet, err := net.ParseCIDR(subnet)
-		if err == nil {
-			c.covertBlocklistSubnets = append(c.covertBlocklistSubnets, ipNet)
+		if err != nil {
+			return fmt.Errorf("covert_blocklist_subnets: bad entry %q: %w", subnet, err)
 		}
+		c.covertBlocklistSubnets = append(c.covertBlocklistSubnets, ipNet)
 	}
 
 	c.covertBlocklistDomains = []*regexp.Regexp{}
@@ -72,17 +76,19 @@ func (c *RegConfig) ParseBlocklists() {
 	c.phantomBlocklist = []*net.IPNet{}
 	for _, subnet := range c.PhantomBlocklist {
 		_, ipNet, err := net.ParseCIDR(subnet)
-		if err == nil {
-			c.phantomBlocklist = append(c.phantomBlocklist, ipNet)
+		if err != nil {
+			return fmt.Errorf("phantom_blocklist: bad entry %q: %w", subnet, err)
 		}
+		c.phantomBlocklist = append(c.phantomBlocklist, ipNet)
 	}
 
 	c.covertAllowlistSubnets = []*net.IPNet{}
 	for _, subnet := range c.CovertAllowlistSubnets {
 		_, ipNet, err := net.ParseCIDR(subnet)
-		if err == nil {
-			c.covertAllowlistSubnets = append(c.covertAllowlistSubnets, ipNet)
+		if err != nil {
+			return fmt.Errorf("covert_allowlist_subnets: bad entry %q: %w", subnet, err)
 		}
+		c.covertAllowlistSubnets = append(c.covertAllowlistSubnets, ipNet)
 	}
 	if len(c.covertAllowlistSubnets) > 0 {
 		c.enableCovertAllowlist = true
@@ -92,7 +98,7 @@ func (c *RegConfig) ParseBlocklists() {
 		// Add all public local addresses to the blocklist.
 		ifaces, err := net.Interfaces()
 		if err != nil {
-			return
+			return fmt.Errorf("covert_blocklist_public_addrs: %w", err)
 		}
 
 		for _, i := range ifaces {
@@ -115,6 +121,8 @@ func (c *RegConfig) ParseBlocklists() {
 			}
 		}
 	}
+
+	return nil
 }
 
 // ParseOrResolveBlocklisted attempts to return an IP:port string whenever
